@@ -109,14 +109,19 @@ func decodeTotal(r *ev.Rec, c c14Case, b []byte) (key string, err error) {
 	if derr == nil && pdu == nil {
 		return "nil-nil", fmt.Errorf("decoder returned neither a PDU nor an error")
 	}
-	if alloc := m1.TotalAlloc - m0.TotalAlloc; alloc > allocLimit() {
+	// What is measured is the CUMULATIVE allocation of the call (live memory can only be smaller). It may grow with
+	// what the input really holds - the smallest list element of the schema takes four bits, and decoding one element
+	// leaves about 3 KiB of garbage behind (every field formats a trace line, whether it is printed or not): 8 KiB per
+	// input octet - and with the schema's own list-size limit, never with what counts and lengths merely claim.
+	limit := allocLimit() + uint64(len(b))*8192
+	if alloc := m1.TotalAlloc - m0.TotalAlloc; alloc > limit {
 		// re-measure in isolation before believing it
 		runtime.GC()
 		runtime.ReadMemStats(&m0)
 		_, _ = ev.Guard(func() error { _, e := ngap.Decoder(b); return e })
 		runtime.ReadMemStats(&m1)
-		if alloc2 := m1.TotalAlloc - m0.TotalAlloc; alloc2 > allocLimit() {
-			return "alloc", fmt.Errorf("decoding %d octets allocated %d MiB (bound %d MiB)", len(b), alloc2>>20, allocLimit()>>20)
+		if alloc2 := m1.TotalAlloc - m0.TotalAlloc; alloc2 > limit {
+			return "alloc", fmt.Errorf("decoding %d octets allocated %d MiB (bound %d MiB = %d MiB for the largest list of the schema + 8 KiB per input octet)", len(b), alloc2>>20, limit>>20, allocLimit()>>20)
 		}
 	}
 	if dt > c14TimeLimit {
